@@ -209,6 +209,8 @@ def gen_config(rng, with_decimal=False, decimal_widths=(3, 6, 8, 12, 15)):
         elif r < 0.45:
             fmt, w = rng.choice(DATE_FORMATS)
             fc.update(field_type='FIXED', field_length=w, field_python_type='datetime', field_date_format=fmt)
+            if fmt == '%y%m%d' and rng.random() < 0.6:
+                del fc['field_date_format']        # the documented default format, left out of the entry
         elif r < 0.62:
             fc.update(field_type='FIXED', field_length=rng.choice([1, 2, 3, 6, 8, 12, 15, 16, 17, 19, 24]),
                       field_python_type=rng.choice(['int', 'long']))
